@@ -87,6 +87,7 @@ class Snapshot:
         self.n = ctx.n
         self.val_syms = list(ctx.val_syms)
         self.eq_seen = set(ctx.eq_seen)
+        self.lt_terms = dict(ctx.lt_terms)
         self.trace = list(trace)
 
     def restore(self, env, ctx):
@@ -99,6 +100,7 @@ class Snapshot:
         ctx.n = self.n
         ctx.val_syms = list(self.val_syms)
         ctx.eq_seen = set(self.eq_seen)
+        ctx.lt_terms = dict(self.lt_terms)
         for f in self.pc:
             ctx.assume(f)
         return himpl, href
